@@ -28,6 +28,9 @@ type Case struct {
 	UDP     bool   `json:"udp,omitempty"`
 	IOList  bool   `json:"stdio_listener,omitempty"` // local application attached through the real InputOutputListener
 	Quiet   int    `json:"quiet,omitempty"`          // fake seconds the logical connection stays idle before the first write
+	// Paced: every write is issued only after the previous one has crossed (each application write
+	// reaches the carrier as a message of its own; Sizes is then From..To, every length in turn)
+	Paced bool `json:"paced,omitempty"`
 }
 
 func (c Case) String() string {
@@ -37,6 +40,9 @@ func (c Case) String() string {
 	}
 	if c.Quiet > 0 {
 		l += fmt.Sprintf(" idle-first=%ds", c.Quiet)
+	}
+	if c.Paced {
+		return fmt.Sprintf("%s/%s dir=%s paced writes of every length %d..%d%s", c.Carrier, c.Sec, c.Dir, c.Sizes[0], c.Sizes[len(c.Sizes)-1], l)
 	}
 	return fmt.Sprintf("%s/%s dir=%s sizes=%v plan=%s fill=%s%s", c.Carrier, c.Sec, c.Dir, c.Sizes, c.Plan, c.Fill, l)
 }
@@ -160,11 +166,32 @@ func execute(t *testing.T, c Case) (kind, detail string, res bubble.Result) {
 			bubble.Advance(time.Duration(c.Quiet) * time.Second)
 		}
 		total := sum(c.Sizes)
-		if c.Dir == "up" || c.Dir == "both" {
-			app.StartWrites(makeWrites(c.Sizes, upF))
-		}
-		if c.Dir == "down" || c.Dir == "both" {
-			tg.StartWrites(makeWrites(c.Sizes, downF))
+		if c.Paced {
+			ups, downs := makeWrites(c.Sizes, upF), makeWrites(c.Sizes, downF)
+			sent := 0
+			for i := range c.Sizes {
+				if c.Dir == "up" || c.Dir == "both" {
+					app.StartWrite(ups[i])
+				}
+				if c.Dir == "down" || c.Dir == "both" {
+					tg.StartWrite(downs[i])
+				}
+				sent += c.Sizes[i]
+				bubble.Wait()
+				for j := 0; j < 40 && c.Carrier == "dns"; j++ {
+					if (c.Dir == "down" || tg.Obs().Got >= sent) && (c.Dir == "up" || app.Obs().Got >= sent) {
+						break
+					}
+					bubble.Advance(2 * time.Second)
+				}
+			}
+		} else {
+			if c.Dir == "up" || c.Dir == "both" {
+				app.StartWrites(makeWrites(c.Sizes, upF))
+			}
+			if c.Dir == "down" || c.Dir == "both" {
+				tg.StartWrites(makeWrites(c.Sizes, downF))
+			}
 		}
 		bubble.Wait()
 		bubble.Advance(horizon)
@@ -291,6 +318,24 @@ func cases(thorough bool) []Case {
 					}
 				}
 			}
+		}
+	}
+	// every write length in turn, each write crossing the carrier as a message of its own (what a
+	// length does to the carrier's framing: DNS name layout, websocket frames, TLS records)
+	for _, v := range variants {
+		if v.sec == "starttls" && !thorough {
+			continue
+		}
+		hi := 450
+		if v.carrier != "dns" {
+			hi = 300
+		}
+		var seq []int
+		for n := 1; n <= hi; n++ {
+			seq = append(seq, n)
+		}
+		for _, dir := range []string{"up", "down"} {
+			out = append(out, Case{Carrier: v.carrier, Sec: v.sec, Dir: dir, Sizes: seq, Plan: "default", Fill: "pattern", Paced: true})
 		}
 	}
 	return out
